@@ -268,6 +268,7 @@ pub struct World {
     /// what the sink's publish-ack callback was called with, in call order: (pid, code, sig, disconnected)
     pub ack_props: Cell<Option<(u16, u16)>>,
     pub cb_log: RefCell<Vec<(u16, u8, u64, bool)>>,
+    pub cb_refills: Cell<u32>,
     pub cb_wakers: RefCell<Vec<Waker>>,
 }
 
@@ -297,6 +298,7 @@ impl World {
             slow_shutdown: Cell::new(false),
             ack_props: Cell::new(None),
             cb_log: RefCell::new(Vec::new()),
+            cb_refills: Cell::new(0),
             cb_wakers: RefCell::new(Vec::new()),
         })
     }
@@ -650,6 +652,13 @@ impl World {
     pub fn cb_query(&self, open: bool, ready: bool, credit: usize) {
         self.probe(if open { "cb_query_open" } else { "cb_query_closed" });
         let _ = (ready, credit);
+    }
+
+    /// budget of sends issued from inside the callback
+    pub fn cb_refill(&self) -> bool {
+        let n = self.cb_refills.get();
+        self.cb_refills.set(n + 1);
+        n < 2
     }
 
     pub fn cb_mark(&self) -> usize {
